@@ -227,3 +227,15 @@ pub open spec fn v2_addr_end(s: Seq<u8>) -> int
 {
     if hi_nib(s[13]) == 0x00u8 { s.len() as int } else { 16 + fam_size(hi_nib(s[13])) }
 }
+
+/// what the v2 accessors need in order not to panic: the fixed part is present and the payload
+/// holds the address block of the family of the decoded addresses
+pub open spec fn v2_header_safe(h: V2Header) -> bool {
+    h.header@.len() >= 16 + fam_size(fam_code(v2_family_of_addresses(h.addresses)))
+    && h.header@.len() <= 0x7fff_ffff_ffff_ffff
+}
+
+/// end of the address view as computed from the decoded address value (what the accessors use)
+pub open spec fn v2_addr_end_of(s: Seq<u8>, a: V2Addresses) -> int {
+    if a is Unspecified { s.len() as int } else { 16 + fam_size(fam_code(v2_family_of_addresses(a))) }
+}
